@@ -420,7 +420,10 @@ class QkTransform(object):
 
                 # Check if val is at k0 is unlimted and prepare for piecewise
                 if not backward:
-                    case_val = this_expr.subs(k, k0)
+                    # The expression is periodic in k so use the
+                    # unshifted bin (sympy cannot simplify the shifted one
+                    # when N is symbolic)
+                    case_val = this_expr.subs(k, ca)
                     neq = sym.Ne(k, k0)
                 else:
                     case_val = this_expr.subs(-k, -k0)
